@@ -223,6 +223,84 @@ def run(ck, cases, tier, compile_n):
         ck.notes["compiled_bodies"] = len(obs)
 
 
+def pipeline_trace(ck, cases, tier, selftest=False):
+    """(iii) stage events of real calls validated against GraphqlClient.tla by TLC (Trace_Pipeline)"""
+    import random
+    rng = random.Random(vlib.seed() + 7)
+    workdir = os.path.join(vlib.WORK, "c05")
+    spath = os.path.join(workdir, "schema.graphql")
+    sel = rng.sample(cases, min(len(cases), 250 if tier == "quick" else 3000))
+    calls, info = [], []
+    for n, c in enumerate(sel):
+        variant = n % 5
+        text = render(c)
+        loadable, valid = True, True
+        job = {"id": n, "schema_path": spath, "options": {"mode": c["mode"], "normalization": c["normalization"]},
+               "want_tokens": False}
+        if c["requested"]:
+            job["options"]["operation_name"] = c["requested"]
+            if c["mode"] == "derive":
+                job["options"]["struct_ident"] = c["requested"]
+        if variant == 3:
+            text = text.replace("f1", "nope", 1)          # unknown field: resolution fails
+            valid = "f1" not in render(c) and True or False
+            valid = False if "nope" in text else True
+        if variant == 4:
+            job["query_path"] = os.path.join(workdir, "q", "does_not_exist_%d.graphql" % n)
+            loadable = False
+        else:
+            job["query"] = text
+        calls.append({"call": "c%d" % n, "job": job})
+        info.append({"ops": c["ops"], "requested": c["requested"], "normalization": c["normalization"], "mode": c["mode"],
+                     "loadable": loadable, "valid": valid})
+    res = vlib.gqlv_isolated("threads", {"id": 0, "threads": [{"id": 1, "calls": calls}], "schedule": None}, timeout=600)
+    if res.get("timeout") or not res.get("result"):
+        ck.violation("pipeline-run", {"run": str(res)[:1000]}, "C05(iii): the driver process running %d calls did not finish: %s" % (len(calls), str(res)[:300]),
+                     case_key="pipeline-crash")
+        return
+    out = res["result"]
+    results = out["results"].get("t1", [])
+    evs = sorted(out["events"], key=lambda e: e["seq"])
+    trace, k = [], -1
+    blank = {"a": "", "ops": [], "requested": "", "normalization": "", "mode": "", "loadable": True, "valid": True,
+             "names": [], "name": "", "outcome": ""}
+    for e in evs:
+        if e["event"] == "CallBegin":
+            k += 1
+            trace.append(dict(blank, a="Begin", **info[k]))
+        elif e["event"] == "Resolved":
+            trace.append(dict(blank, a="Resolved"))
+        elif e["event"] == "Selected":
+            trace.append(dict(blank, a="Selected", names=[x for x in e["key"].split(",") if x]))
+        elif e["event"] == "Rendered":
+            trace.append(dict(blank, a="Rendered", name=e["key"]))
+        elif e["event"] == "CallEnd":
+            st = results[k]["status"] if k < len(results) else "missing"
+            trace.append(dict(blank, a="End", outcome=st))
+    if selftest and len(trace) > 5:
+        i = next(j for j, t in enumerate(trace) if t["a"] == "Rendered")
+        del trace[i]
+    tpath = os.path.join(workdir, "pipeline_trace.ndjson")
+    with open(tpath, "w") as f:
+        for t in trace:
+            f.write(json.dumps(t) + "\n")
+    rt = vlib.run_tlc("Trace_Pipeline", "Trace_Pipeline.cfg", env={"TRACE": tpath}, dfs=True, timeout=900)
+    ck.add_tlc(rt)
+    ck.count(len(calls))
+    ck.notes["pipeline_trace_events"] = len(trace)
+    if not rt["ok"]:
+        import re
+        m = re.search(r'"UNMATCHED", (\d+)', rt["out"])
+        i = int(m.group(1)) if m else 0
+        start = max([j for j in range(min(i, len(trace))) if trace[j]["a"] == "Begin"] or [0])
+        ck.violation("pipeline-trace-%s" % vlib.stable_hash(trace[start]), {"call": trace[start], "events": trace[start:i + 1], "violated": rt["violated"],
+                                                                            "tlc": rt["out"][-800:]},
+                     "C05(iii): stage events of a real call are not a behaviour of GraphqlClient.tla (%s): inputs %s, events %s" % (
+                         rt["violated"] or "event rejected", json.dumps({k2: trace[start][k2] for k2 in ("ops", "requested", "normalization", "mode", "loadable", "valid")}),
+                         [(t["a"], t["names"] or t["name"] or t["outcome"]) for t in trace[start + 1:i + 1]]),
+                     case_key="pipeline")
+
+
 def main(tier, replay=None, selftest=False):
     ck = Check(PROP, tier)
     vlib.build_harness()
@@ -262,6 +340,7 @@ def main(tier, replay=None, selftest=False):
         cases[0] = dict(cases[0], kind="one", which=[1], mode="cli", requested=cases[0]["ops"][0], normalization="none")
         cases[0]["ops"] = list(reversed(cases[0]["ops"])) + ["Other"] if "Other" not in cases[0]["ops"] else cases[0]["ops"]
     run(ck, cases, tier, compile_n)
+    pipeline_trace(ck, cases, tier, selftest)
     ck.assumptions += ["name pool with normalisation near-misses (OpSelect!Camel is heck's UpperCamelCase on that pool)",
                        "QUERY / OPERATION_NAME are read with syn::LitStr::value (rustc's unescaping); a sample is compiled and observed through to_value(build_query)",
                        "cli/library calls whose explicit name matches nothing, and unselected documents whose operations collide after normalisation, are outside the statement"]
